@@ -136,7 +136,8 @@ func c04Cases(tier string, group string) []c04Case {
 			{callers: [][]cop{{stat("/a")}}, permute: true, after: true},
 			{callers: [][]cop{{stat("/a")}, {rl("/l")}}, permute: true, after: true},
 			{callers: [][]cop{{wa(0, "PQ")}, {ra(4)}}, permute: true, after: true},
-			{callers: [][]cop{{{kind: "ReadDir", path: "/dir3"}}}, permute: true, after: true}, // a listing of three batches
+			{callers: [][]cop{{{kind: "ReadDir", path: "/dir3"}}}, permute: true, after: true},   // a listing of three batches
+			{callers: [][]cop{{stat("/a"), stat("/b")}, {rl("/l")}}, permute: true, after: true}, // a caller that starts its next call while the loss is being announced
 		}
 		if tier == "thorough" {
 			bases = append(bases, callsSpec{callers: [][]cop{{stat("/a"), ra(2)}, {rl("/l")}, {wa(0, "XY")}}, permute: true, after: true})
@@ -153,6 +154,17 @@ func c04Cases(tier string, group string) []c04Case {
 					s := b
 					s.cut, s.cutErr = k, ce
 					out = append(out, c04Case{calls: &s, bound: deep, desc: s.String()})
+					if ce {
+						// the same cut reported as a timeout-class error that every later read repeats
+						t := b
+						t.cut, t.cutTmo = k, true
+						out = append(out, c04Case{calls: &t, bound: deep, desc: t.String()})
+					} else {
+						// the same cut on a transport whose sending half goes on accepting bytes after Close
+						t := b
+						t.cut, t.sink = k, true
+						out = append(out, c04Case{calls: &t, bound: deep, desc: t.String()})
+					}
 				}
 			}
 			for j := 1; j <= writes+1; j++ {
